@@ -4,4 +4,6 @@ CONSTANTS
   Fams = {"defer"}
   MaxSteps = 600
   Predict = TRUE
+  MaxMut = 0
+  Sugars = {"go"}
 INVARIANTS Export Terminates StoreOK Predicted
